@@ -115,6 +115,38 @@ Theorem C12_wire_updates_are_paired : forall att next nbr fin fbr bits sg slot,
 Proof. exact converters_paired. Qed.
 Print Assumptions C12_wire_updates_are_paired.
 
+(* the wire entry points for EVERY fork container type the type switches accept (deneb, capella, altair; anything
+   else is an error): each case yields exactly the intended shape, and a successful VerifyUpdate /
+   VerifyFinalityUpdate proves the wire object's own finalized header (and next committee) against the attested state root *)
+Theorem C12_wire_converters_exact : forall f att next nbr fin fbr bits sg slot,
+  (forall u, from_light_client_update f att next nbr fin fbr bits sg slot = Ok u ->
+             u = from_update att next nbr fin fbr bits sg slot) /\
+  (forall u, from_light_client_finality_update f att fin fbr bits sg slot = Ok u ->
+             u = from_finality_update att fin fbr bits sg slot) /\
+  (forall u, from_light_client_optimistic_update f att bits sg slot = Ok u ->
+             u = from_optimistic_update att bits sg slot) /\
+  (f <> WOther ->
+     from_light_client_update f att next nbr fin fbr bits sg slot <> Err E_UNKNOWN_TYPE /\
+     from_light_client_finality_update f att fin fbr bits sg slot <> Err E_UNKNOWN_TYPE /\
+     from_light_client_optimistic_update f att bits sg slot <> Err E_UNKNOWN_TYPE).
+Proof. exact wire_converters_exact. Qed.
+Print Assumptions C12_wire_converters_exact.
+
+Theorem C12_verify_update_wire_sound : forall f s att next nbr fin fbr bits sg slot now genesis fv,
+  verify_wire s (from_light_client_update f att next nbr fin fbr bits sg slot) now genesis fv = Ok tt ->
+  branch_holds (htr_header fin) FIN_DEPTH FIN_INDEX (h_state att) /\
+  branch_holds (c_root next) NEXT_DEPTH NEXT_INDEX (h_state att) /\
+  verify_post s (from_update att next nbr fin fbr bits sg slot) now genesis fv.
+Proof. exact verify_wire_update_sound. Qed.
+Print Assumptions C12_verify_update_wire_sound.
+
+Theorem C12_verify_finality_update_wire_sound : forall f s att fin fbr bits sg slot now genesis fv,
+  verify_wire s (from_light_client_finality_update f att fin fbr bits sg slot) now genesis fv = Ok tt ->
+  branch_holds (htr_header fin) FIN_DEPTH FIN_INDEX (h_state att) /\
+  verify_post s (from_finality_update att fin fbr bits sg slot) now genesis fv.
+Proof. exact verify_wire_finality_sound. Qed.
+Print Assumptions C12_verify_finality_update_wire_sound.
+
 Theorem C12_verify_sound_branches : forall s u now genesis fork_version,
   paired u -> verify s u now genesis fork_version = Ok tt ->
   (forall fh, u_fin u = Some fh -> branch_holds (htr_header fh) FIN_DEPTH FIN_INDEX (h_state (u_attested u))) /\
